@@ -1,3 +1,4 @@
+import StorageModel.C17.Copy
 /-
   C17 — sequential model of boltz/db.go: Snapshot / SnapshotInTx / StreamToWriter /
   RestoreSnapshot / RestoreFromReader / MarkAsSnapshot / GetSnapshotId / GetTimelineId /
@@ -68,6 +69,30 @@ structure Db where
 def mark (id : Nat) (d : Db) : Db :=
   { d with mt := { present := true, sid := some id, rt := some true, tl := d.mt.tl } }
 
+/-- a bolt file as a stream: one piece per key/value, the meta bucket last (stands for the pages
+    of the file; what matters is that a lost tail or a lost whole is visible) -/
+inductive Piece where
+  | kv (k v : Nat)
+  | mt (m : Meta)
+  deriving DecidableEq, Repr
+
+def encodeDb (d : Db) : List Piece := d.content.map (fun kv => Piece.kv kv.1 kv.2) ++ [Piece.mt d.mt]
+
+def decodeBody : List Piece → Option Db
+  | [] => none                                   -- truncated: not an openable database
+  | [.mt m] => some { content := [], mt := m }
+  | .mt _ :: _ :: _ => none
+  | .kv k v :: r => (decodeBody r).map fun d => { d with content := (k, v) :: d.content }
+
+/-- what `bbolt.Open` makes of the persisted bytes: an EMPTY file is initialised as a brand-new
+    empty database (that is what bbolt does), anything else must be a complete file -/
+def decodeDb : List Piece → Option Db
+  | [] => some {}
+  | ps => decodeBody ps
+
+/-- persistSnapshot + reopen: the reader `rd` delivers the snapshot file, io.Copy persists it -/
+def restoreVia (f : Db) (rd : Reader) : Option Db := decodeDb (copyAll (script rd (encodeDb f)))
+
 inductive Mode where
   | default | initIfEmpty | forceReset
   deriving DecidableEq, Repr
@@ -122,7 +147,7 @@ inductive Op where
   | snapUpd (slot : Nat) (ws : List Write)     -- Update{ writes; SnapshotInTx }: copy = last committed state
   | snapFail                                   -- Snapshot into a missing directory
   | stream (slot : Nat)                        -- StreamToWriter into a file
-  | restore (slot : Nat) (viaReader : Bool)    -- RestoreSnapshot(bytes) / RestoreFromReader(file)
+  | restore (slot : Nat) (rd : Reader)         -- RestoreSnapshot(bytes) / RestoreFromReader(reader of behaviour rd)
   | gsid                                       -- GetSnapshotId
   | gtl (m : Mode) (idfOk : Bool)              -- GetTimelineId(mode, idF)   idfOk=false: idF fails
   | listen                                     -- AddRestoreListener
@@ -162,11 +187,14 @@ def step (s : Sys) : Op → Sys × Obs
               db := { s.db with content := ws.foldl applyWrite s.db.content } }, .snapped s.nextId s.db)
   | .snapFail => (s, .err)
   | .stream k => ({ s with files := store k s.db s.files }, .streamed s.db)
-  | .restore k _ =>
+  | .restore k rd =>
     match lookup k s.files with
     | none => (s, .nofile)
-    | some f => ({ s with db := f, prev := some s.db, fired := s.fired + s.listeners },
-                 .restored (s.fired + s.listeners) f)
+    | some f =>
+      match restoreVia f rd with
+      | some d => ({ s with db := d, prev := some s.db, fired := s.fired + s.listeners },
+                   .restored (s.fired + s.listeners) d)
+      | none => (s, .err)   -- the persisted bytes are not an openable database: RestoreFromReader panics
   | .gsid => (s, .sid (if s.db.mt.present then s.db.mt.sid else none))
   | .gtl m ok => getTimeline m ok s
   | .listen => ({ s with listeners := s.listeners + 1 }, .ok)
